@@ -1,1 +1,54 @@
-(* placeholder *) From Klepto Require Import CacheCore.
+(* C16  Exceptions pass through untouched; safe caches degrade to plain evaluation. *)
+From Klepto Require Import OMap CacheDict CacheCore CoreInv CoreStep CoreSize CoreExn.
+
+(* The wrapped function raises (fr = Raise).  For every configuration (12 decorators, maxsize,
+   purge, archive attached or not), every key outcome and EVERY state: either a stored result is
+   returned and the function is not evaluated, or the exception propagates after exactly one
+   evaluation and the state - memory, archive, parked archive, eviction queue, refcounts, use
+   counts and statistics - is identical to the state before the call. *)
+Theorem C16_raise_is_identity : forall c s kr orc,
+  match snd (call c s kr Raise orc) with
+  | ORaise EUser ev => ev = 1 /\ fst (call c s kr Raise orc) = s
+  | ORaise ETypeError ev => ev = 0 /\ fst (call c s kr Raise orc) = s /\ c_safe c = false
+  | ORet _ ev => ev = 0
+  | ORaise EIndexError ev => ev = 0
+  | _ => False
+  end.
+Proof. exact raise_is_identity. Qed.
+
+(* ... and under the bookkeeping invariant (every reachable state) the IndexError case is impossible *)
+Theorem C16_no_other_exception : forall c s kr fr orc ev, WF c s -> bounded (c_alg c) = true -> orc_ok c s kr orc ->
+  snd (call c s kr fr orc) <> ORaise EIndexError ev.
+Proof. exact call_never_index_error. Qed.
+
+(* safe decorators: a key that cannot be built or hashed => one plain evaluation, its result returned *)
+Theorem C16_safe_fallback : forall c s kr fr orc, c_safe c = true -> kr <> KOk 0 -> (forall k, kr <> KOk k) ->
+  match fr with
+  | Ret v => snd (call c s kr fr orc) = ORet v 1
+  | Raise => snd (call c s kr fr orc) = ORaise EUser 1 /\ fst (call c s kr fr orc) = s
+  end.
+Proof. exact safe_fallback. Qed.
+
+Theorem C16_safe_never_key_error : forall c s kr fr orc ev, c_safe c = true ->
+  snd (call c s kr fr orc) <> ORaise ETypeError ev.
+Proof. exact safe_never_key_error. Qed.
+
+(* standard decorators fail before evaluating, state untouched *)
+Theorem C16_std_key_failure : forall c s kr fr orc, c_safe c = false -> (forall k, kr <> KOk k) ->
+  call c s kr fr orc = (s, ORaise ETypeError 0).
+Proof. exact std_key_failure. Qed.
+
+(* non-vacuity: a populated LRU state with pending bookkeeping; a raising miss leaves it identical *)
+Example C16_witness :
+  let c := mkCfg LRU 2 false true false in
+  let s := mkS (mkC [(1, 11); (2, 12)] (AStore [(3, 13)]) ANull) [1; 2; 1] [(1, 2); (2, 1)] [] 1 2 0 in
+  call c s (KOk 7) Raise 0 = (s, ORaise EUser 1) /\
+  call c s (KOk 3) Raise 0 <> (s, ORaise EUser 1) /\
+  snd (call c s KUnhash (Ret 5) 0) = ORet 5 1.
+Proof. cbv zeta. repeat split; vm_compute; congruence. Qed.
+
+Print Assumptions C16_raise_is_identity.
+Print Assumptions C16_no_other_exception.
+Print Assumptions C16_safe_fallback.
+Print Assumptions C16_safe_never_key_error.
+Print Assumptions C16_std_key_failure.
